@@ -5,6 +5,7 @@
    `bin/mkprops.py`, then kept as source).  What is proved and what is partial: DESIGN.md §4. -/
 import Peppi.C03
 import Peppi.Premises
+import Peppi.PremisesViews
 set_option linter.unusedVariables false
 namespace Peppi.Props.C03
 
@@ -69,6 +70,61 @@ theorem item_ok : tableOK Item.readPush = true :=
 open Extracted in
 theorem end_ok : tableOK End.readPush = true :=
   _root_.Peppi.end_ok 
+
+/- from `Peppi.PremisesViews` -/
+open Extracted in
+theorem views_End : structOK true true End.views = true :=
+  _root_.Peppi.views_End 
+
+/- from `Peppi.PremisesViews` -/
+open Extracted in
+theorem views_Item : structOK false true Item.views = true :=
+  _root_.Peppi.views_Item 
+
+/- from `Peppi.PremisesViews` -/
+open Extracted in
+theorem views_ItemMisc : structOK false false ItemMisc.views = true :=
+  _root_.Peppi.views_ItemMisc 
+
+/- from `Peppi.PremisesViews` -/
+open Extracted in
+theorem views_Position : structOK false true Position.views = true :=
+  _root_.Peppi.views_Position 
+
+/- from `Peppi.PremisesViews` -/
+open Extracted in
+theorem views_Post : structOK false true Post.views = true :=
+  _root_.Peppi.views_Post 
+
+/- from `Peppi.PremisesViews` -/
+open Extracted in
+theorem views_Pre : structOK false true Pre.views = true :=
+  _root_.Peppi.views_Pre 
+
+/- from `Peppi.PremisesViews` -/
+open Extracted in
+theorem views_Start : structOK false true Start.views = true :=
+  _root_.Peppi.views_Start 
+
+/- from `Peppi.PremisesViews` -/
+open Extracted in
+theorem views_StateFlags : structOK false false StateFlags.views = true :=
+  _root_.Peppi.views_StateFlags 
+
+/- from `Peppi.PremisesViews` -/
+open Extracted in
+theorem views_TriggersPhysical : structOK false true TriggersPhysical.views = true :=
+  _root_.Peppi.views_TriggersPhysical 
+
+/- from `Peppi.PremisesViews` -/
+open Extracted in
+theorem views_Velocities : structOK false true Velocities.views = true :=
+  _root_.Peppi.views_Velocities 
+
+/- from `Peppi.PremisesViews` -/
+open Extracted in
+theorem views_Velocity : structOK false true Velocity.views = true :=
+  _root_.Peppi.views_Velocity 
 
 /-- C03 for the Pre event: the row decoded by the *extracted* `read_push` table of the current source,
     on any payload of any version, has at spec position `k` the big-endian value found at the
